@@ -37,6 +37,11 @@ def scenarios(ctx, rng):
         S("declared-short-mmap", mode, {"op": "writer", "cache": "<C>", "opts": {"size": 4097},
                                         "chunks": [ctx.data(d4097[:100])],
                                         **({"key": "k"} if mode.startswith("sync") else {})}, warm, d4097[:100])
+        if mode.startswith("sync"):
+            # the same declared-size write handed over as ONE gather list (Write::write_vectored): whichever path the
+            # bytes take into the preallocated temp file, what is published under the digest is the whole stream
+            S("declared-mmap-vectored-4097", mode, {"op": "writer", "cache": "<C>", "key": "k", "opts": {"size": 4097}, "vectored": True,
+                                                    "chunks": [ctx.data(d4097[:2000]), ctx.data(d4097[2000:])]}, warm, d4097)
         # unusual layout: the cache's temp area lives on ANOTHER file system (symlink / mount), so the publishing
         # rename cannot work; whatever the library does instead must not expose partial content either
         S("write-warm-4097-tmp-on-other-fs", mode, {"op": "write", "cache": "<C>", "key": "k", "data": ctx.data(d4097)}, warm, d4097)
